@@ -11,7 +11,7 @@ from common import hx
 FILES = ["gen/Gen_tensors.v", "Model_voigt.v", "Model_decomp.v", "Proofs_tensors_alg.v"] + \
         [f"Proofs_tensors_rot{i}.v" for i in range(9)] + \
         ["Proofs_tensors_rot.v", "Proofs_tensors_maps.v", "Proofs_tensors_proj.v", "Inst_tensors.v",
-         "Proofs_decomp.v", "Entry_tensors.v", "Extract_tensors.v"]
+         "Proofs_decomp.v", "Proofs_decomp2.v", "Entry_tensors.v", "Extract_tensors.v"]
 PROP = "Properties/C12.v"
 KEYS = ["bulk_modulus", "shear_modulus", "percent_anisotropy", "percent_hexagonal", "percent_tetragonal",
         "percent_orthorhombic", "percent_monoclinic", "percent_triclinic"]
@@ -193,8 +193,9 @@ def run(chk):
         "hand-written Model_decomp.elasticity_components1 (K, G, isotropic vector, percent anisotropy, eigenvector pairing with the signed-index trick, "
         "three cyclic permutations with strict-< selection, nested projections); tied by this differential run on the recorded eigh outputs",
         "scipy.linalg.eigh is an oracle: orthonormal columns, S v = lambda v, ascending eigenvalues are residual-checked on every call",
-        "OPEN (not proved, carried by the run-time comparison): for a rotated orthorhombic tensor the SCCS found by the pairing is the rotation up to signed permutation, "
-        "hence mono = tric = 0 and the hexagonal axis co-rotates (sccs_is_R, hex_axis_corotates)",
+        "PROVED now (Proofs_decomp2): sccs_is_R, mono = tric = 0 and 'reported axis = +- R e_k' for rotated orthorhombic tensors with distinct principal values. "
+        "OPEN (carried by the run-time comparison): the axis index k is the same in the rotated and the unrotated run (hex_axis_corotates_partial); "
+        "frame independence of all percentages for non-orthorhombic tensors",
     ]
     chk.cov["rule"] = ("tensors = the two built-in single-crystal tensors, random positive-definite orthorhombic tensors, Voigt averages of random 2-11 grain textures; each in the "
                        "unrotated and in a Haar-rotated frame; implementation vs extracted model on the recorded eigh outputs at 1e-9 (+1e-7 abs on percentages); "
